@@ -296,6 +296,7 @@ type Oblig struct {
 }
 
 type VC struct {
+	shifted      map[string]string // (backing array, offset) of a loaded slice -> its offset-0 copy
 	dtZero       map[string]string // datatype sort -> zero term
 	eng          *Engine
 	fn           *ssa.Function
